@@ -232,6 +232,9 @@ func runC16(ctx *runCtx) {
 	rep := ctx.rep
 	rep.Rule = "scenarios: trigger {local Close, peer-initiated Close (each also with a status-less Close frame), protocol violation (1002), read limit (1009), CloseRead policy violation (1008)} x peer echo {early, late, never} x 0..4 concurrent writers (Write and streaming Writer) x 0..2 pingers x role x compression x user Close after an error-triggered close; " +
 		"the raw peer records the complete frame trace until transport EOF; oracle: after the endpoint's first Close frame no data frame and no second Close frame. Timing perturbed by the seed. distinct = scenario tuple"
+	if cirTraceReplay(ctx) {
+		return
+	}
 	if ctx.replay != "" {
 		var cc c16Case
 		if err := loadReplay(ctx.replay, &cc); err == nil && cc.Trigger != "" {
@@ -293,6 +296,7 @@ func runC16(ctx *runCtx) {
 			rep.violate(Violation{Kind: "property", Shape: r.sh + ":" + cc.Trigger, What: fmt.Sprintf("%+v: %s", cc, r.w), Replay: cc})
 		}
 	}
+	cirTraceValidation(ctx, cirTraceN(ctx))
 	rep.sample(cases[0])
 	rep.sample(cases[len(cases)-1])
 }
